@@ -178,13 +178,22 @@ def _slug(s, n=48):
     return re.sub(r"[^A-Za-z0-9]+", "-", s).strip("-")[:n] or "x"
 
 
-def _jinja_frame(tb):
-    """module.function of the innermost traceback frame inside jinja2."""
+_STREAM_HELPERS = {"__next__", "__bool__", "push", "look", "skip", "next_if", "skip_if", "expect", "test", "test_any",
+                   "wrap", "tokeniter", "eos", "close"}
+
+
+def _jinja_frame(tb, skip_stream=False):
+    """module.function of the innermost traceback frame inside jinja2
+    (skip_stream: ignoring the token-stream helpers, so that an interrupted
+    loop is named after the looping function, not after where the alarm hit)."""
     where = "python"
     while tb is not None:
         fn = tb.tb_frame.f_code.co_filename
+        name = tb.tb_frame.f_code.co_name
         if os.sep + "jinja2" + os.sep in fn:
-            where = os.path.basename(fn)[:-3] + "." + tb.tb_frame.f_code.co_name
+            mod = os.path.basename(fn)[:-3]
+            if not (skip_stream and mod == "lexer" and name in _STREAM_HELPERS and where != "python"):
+                where = mod + "." + name
         tb = tb.tb_next
     return where
 
@@ -274,7 +283,7 @@ class Checker:
                 self._attempt(src, full, 10)
             except core.CaseTimeout as e:
                 del p.viol[n:]
-                self.bad(f"C01/hang/{_jinja_frame(e.__traceback__)}", src, self._api, "no result within 10 s (twice)")
+                self.bad(f"C01/hang/{_jinja_frame(e.__traceback__, True)}", src, self._api, "no result within 10 s (twice)")
             else:
                 del p.viol[n:]  # already recorded by the first attempt
                 p.count("timeouts_not_reproduced")
